@@ -9,7 +9,10 @@
 // mid-rule actions at no / one / every gap (including the gaps inside groups). Every action
 // records every reference the rule as written makes visible to it. A second family puts two rules
 // with IDENTICAL action texts in one grammar (the second one differs by a lookahead, or not at
-// all), which is the situation in which the compiler shares extracted mid-rule nonterminals.
+// all), which is the situation in which the compiler shares extracted mid-rule nonterminals; a
+// third family ("rebound names") pairs rules whose prefixes are permutations / re-aliasings of
+// the same typed symbols before a mid-rule action with identical text, so that only the binding
+// name -> position differs between the two.
 //
 // Terminals alternate between {int} (value 100+start offset) and {string} (value "s<start>"), the
 // helper nonterminal P is {float64}, and every reference is recorded as %T:%v, so a reference
@@ -457,6 +460,9 @@ func enumerate(quick bool) []*gspec {
 		})
 		// pairs sharing action texts
 		curRank = 1
+		curItems = 3
+		rebound(add, "ta", "tc", "te", true)
+		rebound(add, "tb", "td", "te", false)
 		pairs(idx("s", "s"), false, true)
 		for _, t := range [][]int{idx("s?", "s"), idx("(s|s)[x]", "s"), idx("s+[x]", "s"), idx("P", "s"), idx("s", "s", "s")} {
 			pairs(t, false, false)
@@ -488,6 +494,11 @@ func enumerate(quick bool) []*gspec {
 	}
 	tuples(1, len(catalogue), func(t []int) { single(t, vEnd|vGreedy|vAll|vSingles|vMidOnly|vFL) })
 	curRank = 1
+	curItems = 3
+	rebound(add, "ta", "tc", "te", true)
+	rebound(add, "tb", "td", "te", true)
+	rebound(add, "ta", "tc", "tb", true)
+	rebound(add, "tb", "td", "tf", true)
 	tuples(2, 3, func(t []int) { pairs(t, false, true) })
 	curRank = 2
 	tuples(2, len(catalogue), func(t []int) {
@@ -537,6 +548,32 @@ func greedySel(items []int, end bool) map[int]bool {
 		}
 	}
 	return sel
+}
+
+// rebound builds the family "two identical mid-rule actions over rebound names": pairs of rules
+// whose prefixes consist of the same typed symbols, permuted or re-aliased, followed by a mid-rule
+// action with byte-identical text (names listed alphabetically), a last symbol and the end
+// action. Stack depth, positions present and the type of every position agree between the two
+// rules; only the binding name -> position differs. sA/sB are two terminals of the same type.
+func rebound(add func(desc string, rules ...*rule), sA, sB, sC string, full bool) {
+	sym := func(s, alias string) *node { return &node{k: kSym, sym: s, alias: alias} }
+	opt := func(n *node) *node { return &node{k: kOpt, alts: [][]*node{{n}}} }
+	mk := func(prefix ...*node) *rule {
+		body := append(prefix, sym(sC, ""))
+		n := len(prefix)
+		insertActions(&body, map[int]bool{n: true}, true, 9001)
+		return &rule{body: body, byName: true}
+	}
+	ty := termType(sA)
+	add(fmt.Sprintf("rebound names, %s / two symbols permuted", ty), mk(sym(sA, ""), sym(sB, "")), mk(sym(sB, ""), sym(sA, "")))
+	add(fmt.Sprintf("rebound names, %s / aliases swapped", ty), mk(sym(sA, "x"), sym(sB, "y")), mk(sym(sA, "y"), sym(sB, "x")))
+	add(fmt.Sprintf("rebound names, %s / alias moved onto an optional symbol", ty), mk(sym(sA, "x"), opt(sym(sB, ""))), mk(sym(sA, ""), opt(sym(sB, "x"))))
+	if !full {
+		return
+	}
+	add(fmt.Sprintf("rebound names, %s / alias moved to the other symbol", ty), mk(sym(sA, "x"), sym(sB, "")), mk(sym(sA, ""), sym(sB, "x")))
+	add(fmt.Sprintf("rebound names, %s / optional symbols permuted", ty), mk(opt(sym(sA, "")), sym(sB, "")), mk(opt(sym(sB, "")), sym(sA, "")))
+	add(fmt.Sprintf("rebound names, %s / same symbol twice, aliases swapped", ty), mk(sym(sA, "x"), sym(sA, "y")), mk(sym(sA, "y"), sym(sA, "x")))
 }
 
 func noFL(r *rule) *rule {
